@@ -108,6 +108,40 @@ theorem c07_gls_sensitivity (A W : Mat) (y p : List Rat) (S : Mat) (m n : Nat)
 example : Shaped [[1, 0], [1, 1], [1, 2]] 3 2 ∧ Shaped [[1, 0, 0], [0, 1, 0], [0, 0, 1]] 3 3 := by
   constructor <;> simp [Shaped]
 
+/-- **C07 (independent of the order of the dictionary keys).**  The linear problem of a combined fit - design matrix,
+    weights, data vector, prior rows - assembled by the model of `least_squares` is the same for every order in which
+    the data sets are handed over (they are stacked by sorted key), for any number of data sets with distinct keys. -/
+theorem c07_assemble_key_order (bs bs' : List Block) (npar : Nat) (priors : List (Nat × Rat × Rat)) (hp : bs.Perm bs')
+    (hnd : (bs.map (·.key)).Nodup) : assemble bs npar priors = assemble bs' npar priors :=
+  assemble_perm bs bs' npar priors hp hnd
+
+/-- hence the fitted parameters, their sensitivities and chi-square do not depend on that order either -/
+theorem c07_fit_key_order (bs bs' : List Block) (npar : Nat) (priors : List (Nat × Rat × Rat)) (hp : bs.Perm bs')
+    (hnd : (bs.map (·.key)).Nodup) : fitLinear bs npar priors = fitLinear bs' npar priors := by
+  unfold fitLinear
+  rw [assemble_perm bs bs' npar priors hp hnd]
+
+/-- what the assembled fit returns is the checked closed form of the assembled problem (so `c07_gls_normal_equations`
+    and `c07_gls_is_estimator` apply to it) -/
+theorem c07_fit_is_gls (bs : List Block) (npar : Nat) (priors : List (Nat × Rat × Rat)) (p : List Rat) (S : Mat) (c : Rat)
+    (h : fitLinear bs npar priors = some (p, S, c)) :
+    gls (assemble bs npar priors).1 (assemble bs npar priors).2.1 (assemble bs npar priors).2.2 = some (p, S) ∧
+    c = chisq (assemble bs npar priors).1 (assemble bs npar priors).2.1 (assemble bs npar priors).2.2 p := by
+  unfold fitLinear at h
+  simp only at h
+  split at h
+  · cases h
+  · rename_i p' S' hg
+    simp only [Option.some.injEq, Prod.mk.injEq] at h
+    obtain ⟨rfl, rfl, rfl⟩ := h
+    exact ⟨hg, rfl⟩
+
+/-- a combined fit of two data sets with a shared offset and a prior on the slope of the second, handed over in both
+    orders -/
+example : fitLinear [⟨"b", [[1, 0, 1], [1, 0, 2]], [3, 5], [1, 1]⟩, ⟨"a", [[1, 1, 0], [1, 2, 0], [1, 3, 0]], [2, 3, 4], [1, 1, 1]⟩] 3 [(2, 2, 1)]
+    = fitLinear [⟨"a", [[1, 1, 0], [1, 2, 0], [1, 3, 0]], [2, 3, 4], [1, 1, 1]⟩, ⟨"b", [[1, 0, 1], [1, 0, 2]], [3, 5], [1, 1]⟩] 3 [(2, 2, 1)] := by
+  decide +kernel
+
 end executable
 
 end PV
